@@ -253,6 +253,15 @@ func (v *varValidator) validateVarType(typ *ast.Type, val reflect.Value) (reflec
 			if err != nil {
 				return val, err
 			}
+			if !cval.Type().AssignableTo(val.Type().Elem()) {
+				// a typed map (e.g. map[string]int) cannot hold the coerced field (e.g. []int{1}):
+				// continue with a copy of the object as map[string]interface{}
+				obj := reflect.MakeMapWithSize(reflect.TypeOf(map[string]interface{}{}), val.Len())
+				for _, key := range val.MapKeys() {
+					obj.SetMapIndex(reflect.ValueOf(key.String()), val.MapIndex(key))
+				}
+				val = obj
+			}
 			val.SetMapIndex(reflect.ValueOf(fieldDef.Name), cval)
 		}
 	default:
